@@ -1,6 +1,7 @@
 import SaModel.Lemmas.C01Comb
 import SaModel.Lemmas.C01MapOps
 import SaModel.Spec.Interp
+import SaModel.Lemmas.C01LeafBridge
 /-
 R1 — the work-horse: every successful `push` keeps the builder state well formed and appends exactly ONE
 logical row.  One mutual structural recursion over the serde value, all builder families.
